@@ -68,6 +68,10 @@ CLAIMED["C05"] = dict(technique="differential testing against go/types: rapid-ge
 CLAIMED["C15"] = dict(technique="exhaustive bounded enumeration of comment strings + rapid structured/unstructured strings against a hand-written reference recogniser of the documented grammar, plus rapid attachment-site programs; observed through the public readers on really parsed files",
     text="Every comment text '//' + up to 4 (quick) / 6 (thorough) tokens of a 25-token alphabet is parsed by go/parser as doc comment of a type, a function, a method and a field of an @immutable struct and read by annotations.ReadAllAnnotations and ignore.ReadIgnoreAnnotations; kind, &, qualifier, name, item lists (declaring package first, codes upper-cased) must equal the result of a recursive-descent reference recogniser. Rapid adds longer structured and unstructured strings, and programs in which well-formed annotations sit at every inert attachment site.",
     note="the reference recogniser encodes the documented grammar with longest-list-then-whitespace semantics; strings the statement leaves open (non-ASCII identifiers, digit-leading names, malformed first word after @packageonly, form feed / vertical tab / NBSP as whitespace, group doc comments) are counted and not judged", ref="DESIGN.md section 3, C15")
+
+CLAIMED["C17"] = dict(technique="per-diagnostic validity predicates over rapid-generated programs and a 16-code probe (restated code / analyzer / help-link tables, C19's excerpt predicate on the real files) plus a metamorphic append-and-rerun step with the displayed code; text-mode exit status through the real binary",
+    text="Every diagnostic the real binary emits on the probe and on generated programs is checked for: one distinct documented code in [CODE] form, the analyzer of its category, a position inside a non-excluded file of the analysed package, the category's help link and a valid excerpt; for sampled diagnostics '// @ignore <displayed code>' is appended to their line and the re-analysis must lose exactly that line's diagnostics of that code (once-per-file codes may re-appear later in the file for the same type); in text mode exit status != 0 iff a diagnostic line is printed.",
+    note="tag comments are stripped before this check so that a comment can be appended; a repeated identical prefix such as '[CTOR01] [CTOR01]' counts as one distinct code; annotated real-world corpora are covered for crashes by C10, not re-checked here", ref="DESIGN.md section 3, C17")
 ALL = ["C%02d" % i for i in range(1, 20)]
 NA_REASON = {}
 def main():
